@@ -33,9 +33,55 @@ def inc_parts():
     return out
 
 
+def run_cli_report(res, devs):
+    """what the command-line tool PRINTS about a build (-v): usage and capacity of the three memories = the selected device's row"""
+    import os
+    import re
+    import shutil
+    import subprocess
+    from . import c18, common as C
+    binary, env = c18.build_bin()
+    work = os.path.join(C.BUILD, "work", "c12cli-%d" % os.getpid())
+    shutil.rmtree(work, ignore_errors=True)
+    os.makedirs(work)
+    n = 0
+    for name, flash, rstart, rsize, eep, _ in devs:
+        text = (".device %s\n" % name if name != "-" else "") + " nop\n nop\n"
+        used_e = used_r = 0
+        if eep > 0:
+            text += ".eseg\n .db 1, 2, 3\n"
+            used_e = 3
+        if rsize > 0:
+            text += ".dseg\n .byte 2\n"
+            used_r = 2
+        src = os.path.join(work, "d%d.asm" % n)
+        n += 1
+        open(src, "w").write(text)
+        p = subprocess.run([binary, "-s", src, "-v"], cwd=work, env=env, stdout=subprocess.PIPE, stderr=subprocess.STDOUT, text=True, timeout=60)
+        got = {}
+        for ln in p.stdout.splitlines():
+            m = re.match(r"Flash: (\d+)\((\d+)\) words\(bytes\) of (\d+)\((\d+)\)", ln)
+            if m:
+                got["flash"] = tuple(int(x) for x in m.groups())
+            m = re.match(r"EEPROM: (\d+) bytes of (\d+)", ln)
+            if m:
+                got["eeprom"] = tuple(int(x) for x in m.groups())
+            m = re.match(r"RAM: (\d+) bytes of (\d+)", ln)
+            if m:
+                got["ram"] = tuple(int(x) for x in m.groups())
+        want = dict(flash=(2, 4, flash, 2 * flash), eeprom=(used_e, eep), ram=(used_r, rsize))
+        res.count(("cli-report", name), nontrivial=True)
+        if p.returncode != 0 or got != want:
+            res.failing.append(dict(interface="avra-rs binary -v", input=dict(source=text, device=name), expected="exit 0 and the report %s" % want,
+                                    observed="exit %d, report %s" % (p.returncode, got), cls="cli-report"))
+    shutil.rmtree(work, ignore_errors=True)
+    res.extra.setdefault("distribution", {})["cli_reports"] = n
+
+
 def run(res):
     vh, exe = P.base(res, PROP)
     devs = gen.read_devices(vh)
+    run_cli_report(res, devs)
     default, table = devs[0], devs[1:]
     cases = []   # (text, expect 'OK'/'ERR', device row, kind)
     for name, flash, rstart, rsize, eep, _ in table:
@@ -117,4 +163,4 @@ match_known = P.match_known
 
 
 def replay(path):
-    return P.replay_text(PROP, path, lambda vh, exe, i: None)
+    return P.replay_by_rerun(PROP, path)
